@@ -1,23 +1,15 @@
-use rooc::*;
+use rooc::{solve_real_lp_problem_clarabel, Comparison, LinearModel, OptimizationType, VariableType};
 fn main() {
-    let mut m = LinearModel::new();
-    m.add_variable("x0", VariableType::non_negative_real());
-    m.add_variable("x1", VariableType::real());
-    m.add_constraint(vec![1.0, -4.0], Comparison::GreaterOrEqual, 0.0);
-    m.add_constraint(vec![0.0, 0.0], Comparison::LessOrEqual, 0.0);
-    m.add_constraint(vec![-1.0, 0.0], Comparison::LessOrEqual, 0.0);
-    m.add_constraint(vec![3.0, 3.0], Comparison::GreaterOrEqual, 0.0);
-    m.set_objective(vec![1.0, 1.0], OptimizationType::Min);
-    let s = m.clone().into_standard_form().unwrap();
-    println!("{}", s);
-    let mut t = s.into_tableau().unwrap();
-    println!("vars {:?}\nA {:?}\nb {:?}\nc {:?}\nbasis {:?} value {}", t.variables(), t.a_matrix(), t.b_vec(), t.c_vec(), t.in_basis(), t.current_value());
-    loop {
-        match t.step(&[]) {
-            Ok(StepAction::Pivot{entering, leaving, ratio}) => println!("pivot {entering} {leaving} {ratio} -> value {} b {:?} basis {:?}", t.current_value(), t.b_vec(), t.in_basis()),
-            Ok(StepAction::Finished) => { println!("finished"); break; }
-            Err(e) => { println!("err {e}"); break; }
+    for obj in [vec![1.0, 0.0, 5.0], vec![1.0, 0.0, 0.0], vec![0.0, 0.0, 5.0], vec![1.0, 0.0, 1.0], vec![1.0, 0.0, -5.0]] {
+        let mut m = LinearModel::new();
+        m.add_variable("x0", VariableType::real());
+        m.add_variable("x1", VariableType::real());
+        m.add_variable("x2", VariableType::real());
+        m.add_constraint(vec![0.0, -5.0, 4.0], Comparison::Equal, 0.0);
+        m.set_objective(obj.clone(), OptimizationType::Min);
+        match solve_real_lp_problem_clarabel(&m) {
+            Ok(s) => println!("{obj:?}: Ok value {} {:?}", s.value(), s.assignment().iter().map(|a| a.value).collect::<Vec<_>>()),
+            Err(e) => println!("{obj:?}: Err {e}"),
         }
     }
-    println!("{:?}", solve_real_lp_problem_slow_simplex(&m, 1000).map(|s| s.value()));
 }
